@@ -559,9 +559,12 @@ func (ex *Exec) alloc(st *State, hint string) *Term {
 		func() {
 			defer func() { recover() }()
 			for _, l := range leaves(ex.resolveType(g.Ret, g.Pkg)) {
+				// stated as a fact about the (so far unconstrained) entry of the new reference,
+				// not as a store: the ghost component stays the same term, so that quantified
+				// knowledge about the existing objects survives an allocation
 				n, s := "ghost:"+g.Name+l.path, ArrSort(SRef, l.sort)
-				st.comp[n] = Store(ex.get(st, n, s), r, zeroOfSort(l.sort))
 				compSorts[n] = s
+				ex.pendingAssume = append(ex.pendingAssume, Eq(Select(ex.get(st, n, s), r), zeroOfSort(l.sort)))
 			}
 		}()
 	}
